@@ -348,7 +348,7 @@ class Ctx:
         if self.violations:
             self.log("%d violation(s)" % len(self.violations))
             return 1
-        self.log("OK: no violation; evidence written")
+        self.log("OK: no violation" + ("" if self.replay else "; evidence written"))
         return 0
 
 
